@@ -352,6 +352,12 @@ pub fn exercise(t: &mut Tracer, s: &ReqSpec, rng: &mut StdRng, nsched: usize, ch
                 None => return,
             };
             t.ev(json!({"ev":"run"}));
+            if outs[0] == 65536 {
+                if let Sut::Flow(f) = &mut b2.sut {
+                    let _ = guarded(|| f.headers_map());
+                    t.class("srw:after-headers-map");
+                }
+            }
             let mut acc = vec![];
             for o in outs {
                 ev_srw(t, &mut b2.sut, o, &mut acc, usize::MAX);
@@ -385,6 +391,13 @@ pub fn exercise(t: &mut Tracer, s: &ReqSpec, rng: &mut StdRng, nsched: usize, ch
             None => return,
         };
         t.ev(json!({"ev":"run"}));
+        if k % 2 == 1 {
+            // a look at the headers before the first write is read-only
+            if let Sut::Flow(f) = &mut b2.sut {
+                let _ = guarded(|| f.headers_map());
+                t.class("srw:after-headers-map");
+            }
+        }
         let sched: Vec<usize> = match k {
             0 => vec![maxline + 2],
             1 => vec![maxline],
@@ -487,13 +500,19 @@ pub fn c02(o: &Opts, t: &mut Tracer) -> Value {
         if i % 11 == 0 {
             orig.push(("expect".into(), b"100-continue".to_vec()));
         }
-        let uri = ["http://h.test/", "http://h.test", "https://h.test:8443/a/b?x=1&y=2", "http://h.test/path%20with/enc?q=%2F"][i % 4].to_string();
+        let uri = ["http://h.test/", "http://h.test", "https://h.test:8443/a/b?x=1&y=2", "http://h.test/path%20with/enc?q=%2F", "http://h.test/search?", "http://h.test/a;p=1/b,c?d=e,f&g=[h]"][i % 6].to_string();
         let hops: Vec<(u16, String)> = (0..depth).map(|d| ([302u16, 301, 307][d % 3], ["/r1", "http://other.test/r2?z=1", "../r3"][(i + d) % 3].to_string())).collect();
         // 307 keeps the method and is not followed for body methods: use 302 for those
         let hops: Vec<(u16, String)> = hops.into_iter().map(|(s, l)| if body_method || method == "DELETE" { (302, l) } else { (s, l) }).collect();
         let policy_same_host = i % 2 == 0;
         if depth > 0 && i % 2 == 1 {
-            // inherited headers that every redirect suppresses, some of them repeated
+            // inherited headers that every redirect suppresses, some of them repeated; ahead of or behind the others
+            if i % 4 == 1 {
+                orig.insert(0, ("cookie".into(), b"first=1".to_vec()));
+                if !policy_same_host {
+                    orig.insert(1.min(orig.len()), ("authorization".into(), b"Basic zero".to_vec()));
+                }
+            }
             orig.push(("cookie".into(), b"a=1".to_vec()));
             orig.push(("x-between".into(), b"1".to_vec()));
             orig.push(("cookie".into(), b"b=2".to_vec()));
@@ -518,18 +537,20 @@ pub fn c02(o: &Opts, t: &mut Tracer) -> Value {
 pub fn c16(o: &Opts, t: &mut Tracer) -> Value {
     let mut rng = rng_for(o.seed, 0xC16);
     let nflows = if o.quick() { 300 } else { 8000 };
-    let special: [(&str, &[u8]); 18] = [
+    let special: [(&str, &[u8]); 22] = [
         ("cookie", b"jar=1"), ("authorization", b"Bearer target-token"), ("content-length", b"0"), ("host", b"override.test"),
         ("connection", b"close"), ("Cookie", b"second=2"), ("x-1", b"one"), ("accept", b"*/*"),
         ("cookie", b"name=caf\xe9"), ("authorization", b"Basic \xff\xfe\x80"),
         // the very values the original request carried, set again by the caller
         ("cookie", b"orig-cookie=1"), ("authorization", b"Basic b3JpZw=="), ("x-keep", b"k"),
         ("transfer-encoding", b"chunked"), ("expect", b"100-continue"), ("Expect", b"100-continue"), ("connection", b"keep-alive"), ("te", b"trailers"),
+        // values shaped like URIs, dates, lists
+        ("referer", b"https://secure.test/page?x=1"), ("origin", b"https://secure.test"), ("if-modified-since", b"Sat, 29 Oct 1994 19:43:31 GMT"), ("accept-encoding", b"gzip, deflate;q=0.5, *;q=0"),
     ];
     for i in 0..nflows {
         let depth = i % 4;
-        let method = ["GET", "HEAD", "POST", "OPTIONS", "PUT", "DELETE"][i % 6];
-        let body_method = matches!(method, "POST" | "PUT");
+        let method = ["GET", "HEAD", "POST", "OPTIONS", "PUT", "DELETE", "TRACE", "PATCH", "CONNECT"][i % 9];
+        let body_method = matches!(method, "POST" | "PUT" | "PATCH");
         let mut orig: Vec<(String, Vec<u8>)> = vec![
             ("cookie".into(), b"orig-cookie=1".to_vec()),
             ("authorization".into(), b"Basic b3JpZw==".to_vec()),
@@ -576,7 +597,9 @@ pub fn c16(o: &Opts, t: &mut Tracer) -> Value {
                 added.push(("cookie".into(), payload(40 + i % 90, 16).iter().map(|b| b'a' + (b % 26)).collect()));
             }
         }
-        let hops: Vec<(u16, String)> = (0..depth).map(|d| (302u16, ["/next", "http://b.test/x", "https://h.test/s", "../up?q=1"][(i + d) % 4].to_string())).collect();
+        // 307 keeps the method (TRACE, OPTIONS, CONNECT ... stay what they are) and is followed for bodiless methods only
+        let keep = !body_method && method != "DELETE" && i % 5 == 2;
+        let hops: Vec<(u16, String)> = (0..depth).map(|d| (if keep { 307u16 } else { 302 }, ["/next", "http://b.test/x", "https://h.test/s", "../up?q=1"][(i + d) % 4].to_string())).collect();
         if despite && i % 5 == 0 {
             // both framing headers set by the caller, in either order: both must be on the wire
             let cl = ("content-length".to_string(), b"5".to_vec());
@@ -589,7 +612,7 @@ pub fn c16(o: &Opts, t: &mut Tracer) -> Value {
         if despite {
             t.class("c16:despite");
         }
-        let s = ReqSpec { method: method.into(), version: "1.1", uri: "http://h.test/start/page".into(), orig, added, despite, api: "flow", hops, policy_same_host: i % 2 == 1, despite_first: i % 2 == 0, sensitive: i % 3 == 1 };
+        let s = ReqSpec { method: method.into(), version: "1.1", uri: "http://h.test/start/page".into(), orig, added, despite, api: "flow", hops, policy_same_host: i % 2 == 1, despite_first: i % 2 == 0, sensitive: i % 4 == 1 };
         t.sig(format!("c16/{}/{}/{}/{}", method, depth, nadd.min(10), i % 2));
         if depth > 0 && nadd > 0 {
             t.class("c16:added-on-redirected");
@@ -678,7 +701,9 @@ pub fn c17(o: &Opts, t: &mut Tracer) -> Value {
                                 }
                                 orig.extend(gen_headers(&mut rng, (n % 3) as usize));
                                 let hops = if redirected { vec![([302u16, 301, 307, 303][n % 4], ["/next", "http://b.test/x"][(n / 4) % 2].to_string())] } else { vec![] };
-                                let s = ReqSpec { method: m.to_string(), version: v, uri: "http://u.test/p?q=1".into(), orig, added, despite, api, hops, policy_same_host: n % 3 == 0, despite_first: n % 2 == 0, sensitive: false };
+                                // an origin-form target and no Host at all is none of the refused classes
+                                let uri = if *h == "none" && !redirected && (n / 4) % 3 == 0 { "/p?q=1" } else { "http://u.test/p?q=1" };
+                                let s = ReqSpec { method: m.to_string(), version: v, uri: uri.into(), orig, added, despite, api, hops, policy_same_host: n % 3 == 0, despite_first: n % 2 == 0, sensitive: false };
                                 t.sig(format!("c17/{}/{}/{}/{}/{}/{}/{}/{}", v, m, h, c, te, despite, api, redirected));
                                 exercise(t, &s, &mut rng, 1, true, "c17");
                             }
